@@ -259,6 +259,7 @@ def elementwise(fn, kind, *args):
                 vs.append(a)
         res = elementwise(fn, kind, *vs)
         return Masked(res, mask)
+    col = any(isinstance(a, Arr) and a.col2d for a in args)
     vs = [as_vec(a) if isinstance(a, (Arr, Vec)) else a for a in args]
     n = broadcast_len(*vs)
     if n is None:
@@ -274,4 +275,6 @@ def elementwise(fn, kind, *args):
         k = "int" if all(x == "int" for x in kinds) and all(_is_intlike(o) for o in others) else "real"
         if all(x == "bool" for x in kinds) and not others:
             k = "bool"
-    return Vec(n, f, k)
+    out = Vec(n, f, k)
+    out.col2d = col
+    return out
